@@ -2,6 +2,7 @@ package main
 
 import (
 	"fmt"
+	"strings"
 
 	"ssvharness/internal/common"
 )
@@ -186,7 +187,7 @@ func genRoute(r *common.Rng, c *Case, idx int, invalid bool) RouteSpec {
 	}
 	if present(1, 3) {
 		if r.Bool() {
-			rt.FromPrefixes = subset(r, prefixPool, 1, 3)
+			rt.FromPrefixes = subset(r, common.Pick(r, [][]string{prefixPool, nestedPrefixPool}), 1, 3)
 		}
 		if len(c.PfxSets) > 0 && (len(rt.FromPrefixes) == 0 || r.Chance(1, 3)) {
 			rt.FromPfxSets = subset(r, c.PfxSets, 1, 2)
@@ -227,7 +228,7 @@ func genRoute(r *common.Rng, c *Case, idx int, invalid bool) RouteSpec {
 	if present(2, 5) {
 		rt.DisableResolve = r.Chance(1, 3) || !hasResolvers
 		if r.Bool() {
-			rt.ToPrefixes = subset(r, prefixPool, 1, 3)
+			rt.ToPrefixes = subset(r, common.Pick(r, [][]string{prefixPool, nestedPrefixPool}), 1, 3)
 		}
 		if len(c.PfxSets) > 0 && (len(rt.ToPrefixes) == 0 || r.Chance(1, 3)) {
 			rt.ToPfxSets = subset(r, c.PfxSets, 1, 2)
@@ -345,12 +346,88 @@ func invalidPorts(ports []int, items []PortItem) bool {
 	return n == 65535
 }
 
+// genDomSet builds a domain-set rule list over the label vocabulary: suffix rules that extend one another in random
+// order (narrow before broad as often as broad before narrow), duplicates, counts across the matcher thresholds
+// (4/5 suffixes, 16/17 domains), keyword and regexp rules.
+func genDomSet(r *common.Rng) []domRule {
+	var rules []domRule
+	nsuf := common.Pick(r, []int{0, 1, 2, 2, 3, 4, 5, 5, 6, 9})
+	var sufs []string
+	if nsuf > 0 && r.Chance(2, 3) {
+		// a chain: every suffix of one name, then shuffled
+		name := common.Pick(r, []string{"a.www.example.com", "mail.b.example.com", "www.example.net", "b.a.b", "www.example.com."})
+		for i := 0; i < len(name); i++ {
+			if i == 0 || name[i-1] == '.' {
+				if name[i:] != "" {
+					sufs = append(sufs, name[i:])
+				}
+			}
+		}
+		sufs = subset(r, sufs, 2, len(sufs))
+	}
+	for len(sufs) < nsuf {
+		sufs = append(sufs, common.Pick(r, suffixRulePool))
+	}
+	if len(sufs) > 1 && r.Chance(1, 4) {
+		sufs = append(sufs, sufs[r.Intn(len(sufs))]) // a duplicate
+	}
+	sufs = subset(r, sufs, len(sufs), len(sufs)) // shuffle
+	ndom := common.Pick(r, []int{0, 0, 1, 2, 15, 16, 17, 18})
+	var doms []string
+	for i := 0; i < ndom; i++ {
+		if i < 3 {
+			doms = append(doms, common.Pick(r, labelUniverse))
+		} else {
+			doms = append(doms, fmt.Sprintf("h%02d.filler", i))
+		}
+	}
+	var kws, res []string
+	if r.Chance(1, 4) {
+		kws = subset(r, keywordRulePool, 1, 2)
+	}
+	if r.Chance(1, 4) {
+		res = subset(r, regexpRulePool, 1, 2)
+	}
+	if len(sufs)+len(doms)+len(kws)+len(res) == 0 {
+		sufs = []string{common.Pick(r, suffixRulePool)}
+	}
+	// the kinds may be interleaved in the file
+	for _, v := range sufs {
+		rules = append(rules, domRule{"suffix", v})
+	}
+	for _, v := range doms {
+		rules = append(rules, domRule{"domain", v})
+	}
+	for _, v := range kws {
+		rules = append(rules, domRule{"keyword", v})
+	}
+	for _, v := range res {
+		rules = append(rules, domRule{"regexp", v})
+	}
+	if r.Chance(1, 3) {
+		for i := range rules {
+			j := i + r.Intn(len(rules)-i)
+			rules[i], rules[j] = rules[j], rules[i]
+		}
+	}
+	return rules
+}
+
+// genPfxSet: nested / overlapping prefixes in random order, duplicates, IPv4-mapped forms.
+func genPfxSet(r *common.Rng) []string {
+	ps := subset(r, nestedPrefixPool, 1, 6)
+	if r.Chance(1, 4) {
+		ps = append(ps, ps[r.Intn(len(ps))])
+	}
+	return ps
+}
+
 func genResolve(r *common.Rng, c *Case) {
 	c.Resolve = map[string]map[string]string{}
 	for _, n := range c.Resolvers {
 		t := map[string]string{}
 		style := r.Intn(4) // 0 mostly answers, 1 mixed, 2 mostly ErrLookup, 3 mostly failures
-		for _, d := range domainUniverse {
+		for _, d := range append(append([]string(nil), domainUniverse...), labelUniverse...) {
 			var v string
 			k := r.Intn(10)
 			switch style {
@@ -458,10 +535,31 @@ func genReq(r *common.Rng, c *Case) ReqSpec {
 				}
 			}
 		}
-		if len(named) > 0 && r.Bool() {
+		var related []string // names around the suffix rules of the referenced sets: the rule itself, a sibling, a child, a look-alike
+		for _, rt := range c.Routes {
+			for _, n := range rt.ToDomSets {
+				for _, rule := range c.domSetRules(n) {
+					if rule.Kind == "suffix" || rule.Kind == "domain" {
+						related = append(related, rule.Val, "mail."+rule.Val, "x"+rule.Val)
+						if i := strings.IndexByte(rule.Val, '.'); i >= 0 {
+							related = append(related, rule.Val[i+1:], "sib."+rule.Val[i+1:])
+						}
+					}
+				}
+			}
+		}
+		switch k := r.Intn(10); {
+		case k < 3 && len(named) > 0:
 			q.DstDom = common.Pick(r, named)
-		} else {
+		case k < 6 && len(related) > 0:
+			q.DstDom = common.Pick(r, related)
+		case k < 8:
+			q.DstDom = common.Pick(r, labelUniverse)
+		default:
 			q.DstDom = common.Pick(r, domainUniverse)
+		}
+		if q.DstDom == "" || len(q.DstDom) > 255 {
+			q.DstDom = "example.com"
 		}
 	} else {
 		q.DstIP = common.Pick(r, ipPool)
@@ -483,8 +581,27 @@ func genCase(r *common.Rng, nreq int) Case {
 	c.Servers = []string{"s0", "s1", "s2", "s3"}[:r.Range(1, 4)]
 	c.Resolvers = []string{"dns1", "dns2", "dns3"}[:common.Pick(r, []int{0, 1, 1, 2, 2, 3})]
 	genResolve(r, &c)
-	c.DomSets = subset(r, poolDomSetNames, 0, 4)
-	c.PfxSets = subset(r, poolPfxSetNames, 0, 3)
+	c.DomSets = subset(r, poolDomSetNames, 0, 3)
+	c.PfxSets = subset(r, poolPfxSetNames, 0, 2)
+	for i, n := 0, r.Range(0, 3); i < n; i++ {
+		name := fmt.Sprintf("cds%d", i)
+		if c.CustomDomSets == nil {
+			c.CustomDomSets = map[string][]domRule{}
+		}
+		c.CustomDomSets[name] = genDomSet(r)
+		c.DomSets = append(c.DomSets, name)
+		if r.Chance(1, 4) {
+			c.GobDomSets = append(c.GobDomSets, name)
+		}
+	}
+	for i, n := 0, r.Range(0, 2); i < n; i++ {
+		name := fmt.Sprintf("cps%d", i)
+		if c.CustomPfxSets == nil {
+			c.CustomPfxSets = map[string][]string{}
+		}
+		c.CustomPfxSets[name] = genPfxSet(r)
+		c.PfxSets = append(c.PfxSets, name)
+	}
 	def := func(clients []string) string {
 		switch k := r.Intn(6); {
 		case k == 0:
